@@ -244,16 +244,49 @@ void h_connected(void)
   GV_CANARY("h_connected end");
 }
 
-/* ---- ReverseCuthillMcKee<int>(graph): perm is a permutation of 1..n with a consistent inverse ---- */
-static void run_rcm(Index n, Index nnz)
+/* ---- ReverseCuthillMcKee<int>(graph): perm is a permutation of 1..n with a consistent inverse ----
+   Measured: with a SYMBOLIC adjacency structure symbolic execution of the five-deep loop nest (algorithm -> pseudo-
+   peripheral node -> rooted level structure) does not finish in 15 min even for n <= 3.  The bounded check therefore
+   ENUMERATES the graphs: the harness chooses (n, edge set, row order) symbolically and dispatches to a call with constant
+   arguments, so that each of the 2*(1+1+2+8+64) structures is executed on its own path with constant data.
+   Edge {x,y}, x<y, is bit (y-1)(y-2)/2 + (x-1) of `bits`; rows are written ascending (what the constructor produces:
+   std::set order) or, with rev, descending. */
+static void mk_graph_bits(struct Adjacency *g, Index n, unsigned bits, bool rev)
+{
+  for (Index x = 0; x <= GV_NMAX; x++)
+    for (Index y = 0; y <= GV_NMAX; y++) gv_A[x][y] = 0;
+  Index nnz = 0;
+  for (Index y = 2; y <= GV_NMAX; y++)
+    for (Index x = 1; x < y; x++)
+      if (y <= n && ((bits >> ((y - 1) * (y - 2) / 2 + (x - 1))) & 1u)) { gv_A[x][y] = 1; gv_A[y][x] = 1; nnz += 2; }
+  g->nods = n;
+  Index xs = n + 2 > 3 ? n + 2 : 3;
+  g->xadj.m = malloc(xs * sizeof(Index));
+  __CPROVER_assume(g->xadj.m);
+  g->xadj.e = g->xadj.m + xs;
+  g->adjncy.m = malloc(nnz * sizeof(Index));
+  __CPROVER_assume(g->adjncy.m);
+  g->adjncy.e = g->adjncy.m + nnz;
+  Index cnt = 0;
+  g->xadj.m[1] = 0;
+  g->xadj.m[2] = 0;
+  for (Index x = 1; x <= GV_NMAX; x++)
+    if (x <= n)
+      {
+        g->xadj.m[x] = cnt;
+        for (Index k = 1; k <= GV_NMAX; k++)
+          {
+            Index y = rev ? GV_NMAX + 1 - k : k;
+            if (y <= n && gv_A[x][y]) { g->adjncy.m[cnt] = y; cnt++; }
+          }
+        g->xadj.m[x + 1] = cnt;
+      }
+}
+
+static void run_rcm(Index n, unsigned bits, bool rev)
 {
   struct Adjacency g;
-  mk_graph(&g, n, nnz, 1);
-  if (nnz % 2 != 0 || nnz > n * (n - 1))
-    {
-      __CPROVER_assert(0, "no simple symmetric graph has an odd number of adjacency entries or more than n(n-1)");
-      return;
-    }
+  mk_graph_bits(&g, n, bits, rev);
   struct SparseMatrixOrdering o;
   ReverseCuthillMcKee_ctor1(&o, &g);            /* = reset(graph) = algorithm(graph); inverse_permutaion() */
   __CPROVER_assert(o.nods == n, "ordering.nodes() == graph.nodes()");
@@ -293,11 +326,16 @@ static void run_rcm(Index n, Index nnz)
 
 void h_rcm(void)
 {
-  Index n_s, e_s;
-  __CPROVER_assume(0 <= n_s && n_s <= GV_NMAX && 0 <= e_s && e_s <= GV_EMAX);
+  Index n_s;
+  unsigned b_s;
+  bool r_s;
+  __CPROVER_assume(0 <= n_s && n_s <= GV_NMAX);
   for (Index n = 0; n <= GV_NMAX; n++)
-    for (Index e = 0; e <= GV_EMAX; e++)
-      if (n == n_s && e == e_s) run_rcm(n, e);
+    for (unsigned bits = 0; bits < (1u << (n * (n - 1) / 2)); bits++)
+      if (n == n_s && bits == b_s)
+        {
+          if (r_s) run_rcm(n, bits, 1); else run_rcm(n, bits, 0);
+        }
   GV_CANARY("h_rcm end");
 }
 //@ end
